@@ -9,6 +9,7 @@ import (
 func init() {
 	verifRegister("VerifC14_KNum", VerifC14_KNum)
 	verifRegister("VerifC14_KSign", VerifC14_KSign)
+	verifRegister("VerifC14_KNumMixedSmall", VerifC14_KNumMixedSmall)
 	verifRegister("VerifC14_KLen", VerifC14_KLen)
 	verifRegister("VerifC14_KIn", VerifC14_KIn)
 	verifRegister("VerifC14_KCompose", VerifC14_KCompose)
@@ -142,6 +143,59 @@ func VerifC14_KNum() {
 		vCover("reject")
 	}
 }
+
+// mixed int/float comparisons on a small grid: the int arbitrary in [-4,4], the float from a set of
+// negative/positive fractions, integral values, signed zeros and infinities (cheap enough for the quick tier;
+// the arbitrary-float version is VerifC14_KNum with mixed=1)
+func VerifC14_KNumMixedSmall() {
+	env := c14Setup()
+	ctors := []string{"s:gt", "s:gte", "s:lt", "s:lte"}
+	ci := vndChoice("ctor", len(ctors))
+	zero := 0.0
+	fs := []float64{-2.5, -0.5, 0.5, 2.5, -3, 3, 0, -zero, 1 / zero, -1 / zero, 0.999999, -0.000001, 4.000001, -4.000001}
+	f := fs[vndChoice("f", len(fs))]
+	i := vndInt("i")
+	vAssume(i >= -4)
+	vAssume(i <= 4)
+	floatIsBound := vndBool("floatIsBound")
+	if floatIsBound {
+		env.PutGlobal(lisp.Symbol("bound"), lisp.Float(f))
+		env.PutGlobal(lisp.Symbol("val"), lisp.Int(i))
+	} else {
+		env.PutGlobal(lisp.Symbol("bound"), lisp.Int(i))
+		env.PutGlobal(lisp.Symbol("val"), lisp.Float(f))
+	}
+	r := c14Load(env, "(set 'v (s:make-validator \"t\" s:number ("+ctors[ci]+" bound)))")
+	vAssert(r.Type != lisp.LError, "schema builds")
+	got := c14Verdict(c14Load(env, "(s:validate v val)"))
+	// exact: every int in [-4,4] converts exactly
+	var lt, gt bool // val < bound, val > bound
+	if floatIsBound {
+		lt, gt = float64(i) < f, float64(i) > f
+	} else {
+		lt, gt = f < float64(i), f > float64(i)
+	}
+	var sat bool
+	switch ci {
+	case 0:
+		sat = gt
+	case 1:
+		sat = !lt
+	case 2:
+		sat = lt
+	case 3:
+		sat = !gt
+	}
+	if sat {
+		vAssert(got == "ok", "a value satisfying the bound validates (mixed int/float)")
+		vCover("accept")
+	} else {
+		vAssert(got == FailedConstraint, "a value violating the bound fails (mixed int/float)")
+		vCover("reject")
+	}
+}
+
+func VerifC14_KNumMixedSmall_Setup() { c14Setup() }
 
 func VerifC14_KSign() {
 	env := c14Setup()
